@@ -8,6 +8,7 @@ package main
 import (
 	"fmt"
 	"math"
+	"strings"
 	"sync/atomic"
 
 	"github.com/unixpickle/model3d/model2d"
@@ -158,9 +159,9 @@ func trisOverlap(a, b [3]pt) bool {
 }
 
 type polyCase struct {
-	API   string    `json:"api"`
+	API   string       `json:"api"`
 	Loops [][][2]int64 `json:"loops"`
-	Place string    `json:"placement,omitempty"`
+	Place string       `json:"placement,omitempty"`
 }
 
 func toLoops(loops [][]pt) [][][2]int64 {
@@ -481,30 +482,58 @@ func checkFace(r *ev.Run, p []pt, plane int) {
 	for i, q := range p {
 		poly[i] = o.Add(u.Scale(float64(q.x))).Add(v.Scale(float64(q.y)))
 	}
-	c := polyCase{"TriangulateFace", toLoops([][]pt{p}), fmt.Sprint("plane", plane)}
-	var ts []*model3d.Triangle
-	if pm := ev.Try(func() { ts = model3d.TriangulateFace(poly) }); pm != "" {
-		r.Violation("TriangulateFace/panic/"+classify(p, pm), "panic: "+pm, c)
-		return
-	}
 	idx := map[model3d.Coord3D]pt{}
 	for i, q := range p {
 		idx[poly[i]] = q
 	}
-	it := make([][3]pt, len(ts))
-	for i, t := range ts {
-		for k := 0; k < 3; k++ {
-			q, ok := idx[t[k]]
-			if !ok {
-				r.Violation("TriangulateFace/wrong/"+classify(p, ""), fmt.Sprintf("triangle %d vertex %v is not an input vertex", i, t[k]), c)
+	// the same face through the two entry points: TriangulateFace itself and an OFF file with this one polygonal
+	// face read by ReadOFF (integer coordinates are exact in text)
+	for _, api := range []string{"TriangulateFace", "ReadOFF"} {
+		c := polyCase{api, toLoops([][]pt{p}), fmt.Sprint("plane", plane)}
+		var ts []*model3d.Triangle
+		var rerr error
+		if pm := ev.Try(func() {
+			if api == "TriangulateFace" {
+				ts = model3d.TriangulateFace(poly)
 				return
 			}
-			it[i][k] = q
+			var sb strings.Builder
+			fmt.Fprintf(&sb, "OFF\n%d 1 0\n", len(poly))
+			for _, v := range poly {
+				fmt.Fprintf(&sb, "%g %g %g\n", v.X, v.Y, v.Z)
+			}
+			fmt.Fprintf(&sb, "%d", len(poly))
+			for i := range poly {
+				fmt.Fprintf(&sb, " %d", i)
+			}
+			sb.WriteString("\n")
+			ts, rerr = model3d.ReadOFF(strings.NewReader(sb.String()))
+		}); pm != "" {
+			r.Violation(api+"/panic/"+classify(p, pm), "panic: "+pm, c)
+			continue
 		}
-	}
-	if msg := judge([][]pt{p}, it, false); msg != "" {
-		r.Violation("TriangulateFace/wrong/"+classify(p, msg), msg, c)
-		return
+		if rerr != nil {
+			r.Violation(api+"/error/"+classify(p, rerr.Error()), "a simple planar face is rejected: "+rerr.Error(), c)
+			continue
+		}
+		it := make([][3]pt, len(ts))
+		bad := false
+		for i, t := range ts {
+			for k := 0; k < 3 && !bad; k++ {
+				q, ok := idx[t[k]]
+				if !ok {
+					r.Violation(api+"/wrong/"+classify(p, ""), fmt.Sprintf("triangle %d vertex %v is not an input vertex", i, t[k]), c)
+					bad = true
+				}
+				it[i][k] = q
+			}
+		}
+		if bad {
+			continue
+		}
+		if msg := judge([][]pt{p}, it, false); msg != "" {
+			r.Violation(api+"/wrong/"+classify(p, msg), msg, c)
+		}
 	}
 }
 
@@ -628,7 +657,7 @@ func main() {
 		switch c.API {
 		case "Triangulate":
 			checkTriangulate(r, loops[0], c.Place)
-		case "TriangulateFace":
+		case "TriangulateFace", "ReadOFF":
 			var pl int
 			fmt.Sscanf(c.Place, "plane%d", &pl)
 			checkFace(r, loops[0], pl)
